@@ -4,11 +4,13 @@ C05 (comparison part)  `== != < <= > >=` are self-consistent.
 What the six operators compute is `Ag.cmpResult` (AgModel/Eval.lean, mirroring
 `Expr::Comparison` in src/operator.rs): `==`/`!=` use the derived `PartialEq` (`Value.beq`),
 the other four use `Ord::cmp` (`Value.cmp`).  Two different relations, so the consistency laws are
-theorems, not definitions — and the full statement is false today.
+theorems, not definitions — and the full statement is false on raw `Value`s (`Float(1.0)` against
+`Int(1)`), although since /repo 6cfc8ab / a77af1c every producer of a `Float` normalises through
+`from_float`, so that pair is no longer reachable from a query.
 
-Domain `Value.inS` (decidable, AgProofs/Lemmas/ValueOrder.lean): scalars (no arrays, no objects)
-whose numbers are normalised the way `Value::from_float` leaves them — a `float` never holds an
-integral value — with integers within ±2^53.
+Domain `Value.inS` (decidable, AgProofs/Lemmas/ValueOrder.lean): values whose numbers are
+normalised the way `Value::from_float` leaves them — a `float` never holds an integer of the i64
+range — with integers within ±2^53; recursively through arrays and objects.
 -/
 import AgModel.Eval
 import AgProofs.Lemmas.FromFloat
@@ -56,100 +58,72 @@ theorem C05_float_int_counterexample :
   simp only [eq, lt, gt, le, ge, ne, cmpResult, BEq.beq, beq, cmp]
   decide
 
-/-- counterexample 2 (arrays): any two arrays are `Equal` for `cmp`, whatever they contain, while
-`==` compares them element-wise -/
-theorem C05_array_counterexample :
-    (∀ a b : List Value, cmp (arr a) (arr b) = .eq) ∧
-    eq (arr [int 1]) (arr [int 2]) = false ∧ lt (arr [int 1]) (arr [int 2]) = false ∧
-    gt (arr [int 1]) (arr [int 2]) = false := by
-  refine ⟨fun a b => by simp [cmp, rank], ?_⟩
-  simp [eq, lt, gt, cmpResult, BEq.beq, beq, beqL, cmp, rank]
-
 theorem C05_trichotomy_not_full : ¬ C05_trichotomy_full := by
   intro h
-  have h1 := (h (float one) (int 1)).1
   obtain ⟨h1, h2, h3, -⟩ := C05_float_int_counterexample
   rcases (h (float one) (int 1)).1 with ⟨a, -, -⟩ | ⟨-, a, -⟩ | ⟨-, -, a⟩ <;> simp_all
 
-/-! ### the un-normalised `Float(1.0)` is reachable: `0.5 + 0.5`
+/-! ### … but the un-normalised `Float(1.0)` is no longer reachable
 
-`Value::from_float` turns integral doubles into `Int`, and every producer of a `Float` goes
-through it (number literals and field text via `from_string`, JSON numbers, functions, aggregates)
-EXCEPT `Float + Float`, `Float - Float`, `Float * Float` (src/data.rs `impl Add/Sub/Mul`), which
-wrap the raw result. -/
+Every producer of a `Float` goes through `Value::from_float`: number literals and field text via
+`from_string`, JSON numbers, functions, aggregates, and — since /repo a77af1c — also
+`Float + Float`, `Float - Float`, `Float * Float`.  `0.5 + 0.5` is `Int(1)`. -/
 
 theorem fromString_half : Value.fromString "0.5" = float half := by
   have h1 : Text.trim ['0', '.', '5'] = ['0', '.', '5'] := by decide
   have h2 : parseI64 ['0', '.', '5'] = Option.none := by decide
   have h3 : parseF64 ['0', '.', '5'] = some half := by decide +kernel
-  have h4 : F64.lt (F64.abs (F64.sub half (F64.floor half))) F64.epsilon = false := by
-    decide +kernel
-  simp [fromString, h1, h2, h3, fromFloat, h4]
+  have h4 : fromFloat half = float half := fromFloat_of_not_isI64Valued (by decide +kernel)
+  simp [fromString, h1, h2, h3, h4]
 
 theorem fromString_one : Value.fromString "1" = int 1 := by
   have h1 : Text.trim ['1'] = ['1'] := by decide
   have h2 : parseI64 ['1'] = some 1 := by decide
   simp [fromString, h1, h2]
 
-theorem add_half_half : Value.add (float half) (float half) = .ok (float one) := by
-  have : F64.add half half = one := by decide
-  simp [Value.add, this]
+theorem fromFloat_one : Value.fromFloat one = int 1 := by
+  unfold one
+  rw [fromFloat_of_isI64Valued (by decide +kernel)]
+  exact congrArg Value.int (by decide +kernel)
 
-/-- the query expression `0.5 + 0.5 == 1` evaluates to `false` (and so do `<` and `>`), on
-every record: the defect is reachable from query text -/
-theorem C05_reachable_unnormalised (ext : Ext) (r : Fields) (op : CmpOp)
-    (hop : op = .eq ∨ op = .lt ∨ op = .gt) :
+theorem add_half_half : Value.add (float half) (float half) = .ok (int 1) := by
+  have : F64.add half half = one := by decide
+  simp [Value.add, this, fromFloat_one]
+
+/-- regression: the query expression `0.5 + 0.5 == 1` now evaluates to `true`, `<` and `>` to
+`false`, on every record -/
+theorem C05_half_plus_half (ext : Ext) (r : Fields) (op : CmpOp) :
     evalValue ext r (.cmp op
       (.arith .add (.val (Value.fromString "0.5")) (.val (Value.fromString "0.5")))
-      (.val (Value.fromString "1"))) = .ok (.bool false) := by
-  obtain ⟨h1, h2, h3, -⟩ := C05_float_int_counterexample
-  simp only [eq, lt, gt] at h1 h2 h3
-  rcases hop with rfl | rfl | rfl <;>
-    simp [evalValue, fromString_half, fromString_one, add_half_half, h1, h2, h3]
+      (.val (Value.fromString "1"))) =
+    .ok (.bool (match op with | .eq => true | .lte => true | .gte => true | _ => false)) := by
+  cases op <;>
+    simp [evalValue, fromString_half, fromString_one, add_half_half, cmpResult, BEq.beq, beq, cmp]
 
-/-- whereas everything `from_float` returns is normalised: an integral double becomes an `Int` -/
-theorem fromFloat_one : Value.fromFloat one = int 1 := by
-  have h4 : F64.lt (F64.abs (F64.sub one (F64.floor one))) F64.epsilon = true := by
-    decide +kernel
-  have h5 : F64.toI64 one = 1 := by decide
-  simp [fromFloat, h4, h5]
+/-- a `Float` that `from_float` returns never holds an integer of the i64 range, i.e. it lies in
+the domain `inS` of the laws below -/
+theorem C05_from_float_normalised (f g : F64) (h : Value.fromFloat f = float g) :
+    normFloat g = true ∧ inS (float g) = true := by
+  have := (fromFloat_eq_float f g h).2
+  exact ⟨this, by simpa [inS] using this⟩
 
-/-- in general: a `Float` that `from_float` returns never holds an integral value, i.e. it lies
-in the domain `inS` of the laws below -/
-theorem C05_from_float_normalised (f g : F64) (hc : Canon f) (h : Value.fromFloat f = float g) :
-    fractNonzero g = true ∧ inS (float g) = true := by
-  suffices hs : fractNonzero g = true from ⟨hs, hs⟩
-  cases f with
-  | nan =>
-    simp [fromFloat, F64.sub, F64.add, F64.abs, F64.lt, pcmp] at h
-    subst h; rfl
-  | inf b =>
-    cases b <;> simp [fromFloat, F64.floor, F64.sub, F64.neg, F64.add, F64.abs, F64.lt, pcmp] at h <;>
-      (subst h; rfl)
-  | fin s m e =>
-    rw [fromFloat_fin hc] at h
-    by_cases hr : returnsInt s m e = true
-    · rw [if_pos hr] at h; exact absurd h (by simp)
-    · rw [if_neg hr] at h
-      simp only [float.injEq] at h
-      subst h
-      simp only [returnsInt, Bool.or_eq_true, decide_eq_true_eq, not_or] at hr
-      rw [fractNonzero_iff]
-      refine ⟨by omega, fun h0 => hr.2 (fracSmall_of_zero h0)⟩
+/-- and so does every arithmetic result on two floats -/
+theorem C05_float_arith_normalised (a b : F64) (g : F64) :
+    (Value.add (float a) (float b) = .ok (float g) → inS (float g) = true) ∧
+    (Value.sub (float a) (float b) = .ok (float g) → inS (float g) = true) ∧
+    (Value.mul (float a) (float b) = .ok (float g) → inS (float g) = true) := by
+  refine ⟨?_, ?_, ?_⟩ <;>
+    (simp only [Value.add, Value.sub, Value.mul, Outcome.ok.injEq]
+     intro h; exact (C05_from_float_normalised _ g h).2)
 
-example : Value.fromFloat half = float half ∧ Canon half := by
-  have := fromString_half
-  have h4 : F64.lt (F64.abs (F64.sub half (F64.floor half))) F64.epsilon = false := by
-    decide +kernel
-  exact ⟨by simp [fromFloat, h4], by unfold half; rw [canon_fin]; decide⟩
+example : Value.fromFloat half = float half := fromFloat_of_not_isI64Valued (by decide +kernel)
 
-/-! ### the laws on scalars with normalised numbers -/
+/-! ### the laws on values with normalised numbers (scalars, arrays, objects) -/
 
 theorem C05_trichotomy_partial {a b : Value} (ha : inS a) (hb : inS b) : Laws a b := by
-  have hE : beq a b = true ↔ cmp a b = .eq := beq_iff_cmp_eq ha hb
-  have hE' : beq b a = true ↔ cmp b a = .eq := beq_iff_cmp_eq hb ha
-  have hsw : cmp b a = (cmp a b).swap :=
-    (cmp_swap a b (fun h => rank_ne_obj_of_inD (inD_of_inS ha) h.1)).symm
+  have hE : beq a b = true ↔ cmp a b = .eq := beq_iff_cmp_eq a b ha hb
+  have hE' : beq b a = true ↔ cmp b a = .eq := beq_iff_cmp_eq b a hb ha
+  have hsw : cmp b a = (cmp a b).swap := (cmp_swap a b).symm
   simp only [Laws, ExactlyOne, eq, ne, lt, le, gt, ge, cmpResult, BEq.beq]
   rw [hsw] at hE' ⊢
   generalize cmp a b = o at *
@@ -157,8 +131,25 @@ theorem C05_trichotomy_partial {a b : Value} (ha : inS a) (hb : inS b) : Laws a 
   generalize beq b a = q at *
   cases o <;> cases p <;> cases q <;> simp_all
 
+/-- in particular for arrays of normalised values: exactly one of `<`, `==`, `>` holds, i.e. the
+element-wise `==` (`beqL`) and the element-wise order (`cmpL`) agree -/
+theorem C05_array_trichotomy_partial {a b : List Value} (ha : inSL a) (hb : inSL b) :
+    Laws (arr a) (arr b) ∧ (beq (arr a) (arr b) = true ↔ cmp (arr a) (arr b) = .eq) ∧
+    (beqL a b = true ↔ cmpL a b = .eq) :=
+  ⟨C05_trichotomy_partial (by simpa [inS] using ha) (by simpa [inS] using hb),
+   beq_iff_cmp_eq _ _ (by simpa [inS] using ha) (by simpa [inS] using hb),
+   beqL_iff_cmpL_eq a b ha hb⟩
+
+example : lt (arr [int 1, str "a"]) (arr [int 1, str "b"]) = true ∧
+    eq (arr [int 1, str "a"]) (arr [int 1, str "b"]) = false ∧
+    inSL [int 1, str "a"] = true := by
+  refine ⟨?_, ?_, by simp [inSL, inS, two53]⟩
+  · simp [lt, cmpResult, cmpL_cons_cons, cmpL_nil_nil, cmp]; decide
+  · simp [eq, cmpResult, BEq.beq, beq, beqL]
+
 /-- non-vacuity: the domain has every scalar kind, ints and non-integral / non-finite floats -/
 example : inS .none ∧ inS (.bool true) ∧ inS (.int (-9007199254740992)) ∧ inS (.float half) ∧
+    inS (.arr [.float half, .obj [("k", .int 1)]]) ∧
     inS (.float nan) ∧ inS (.float (inf true)) ∧ inS (.str "a") ∧ inS (.date 0) ∧ inS (.dur 1) ∧
     ¬ inS (.float one) := by decide
 
@@ -175,10 +166,8 @@ theorem C05_none_eq_none : eq .none .none = true ∧ ne .none .none = false ∧
   simp [eq, ne, lt, gt, cmpResult, BEq.beq, beq, cmp, rank]
 
 /-- `==` is reflexive on scalars of `inS` (NaN included: `OrderedFloat` makes NaN equal to itself) -/
-theorem C05_eq_refl {a : Value} (ha : inS a) : eq a a = true := by
-  have hsw := cmp_swap a a (fun h => rank_ne_obj_of_inD (inD_of_inS ha) h.1)
-  have : cmp a a = .eq := by cases h : cmp a a <;> rw [h] at hsw <;> simp_all
-  exact (beq_iff_cmp_eq ha ha).2 this
+theorem C05_eq_refl {a : Value} (ha : inS a) : eq a a = true :=
+  (beq_iff_cmp_eq a a ha ha).2 (cmp_self a)
 
 /-- numbers by numeric value, strings lexicographic, otherwise by rank (C05_cmp_numeric_lex_rank);
 the order facts themselves are proved in C09order.lean -/
@@ -190,8 +179,8 @@ theorem C05_cmp_numeric_lex_rank :
     (∀ a b : Value, a.rank < b.rank → lt a b = true ∧ gt a b = false ∧ eq a b = false) := by
   refine ⟨?_, ?_, ?_⟩
   · intro a b x y ha hb hx hy
-    have hc := cmp_eq_dcmp (inD_of_inS ha) (inD_of_inS hb) hx hy
-    have hE := beq_iff_cmp_eq ha hb
+    have hc := cmp_eq_dcmp (inD_of_inS a ha) (inD_of_inS b hb) hx hy
+    have hE := beq_iff_cmp_eq a b ha hb
     simp only [lt, gt, eq, cmpResult, BEq.beq]
     rw [hc] at hE ⊢
     rw [hE]
